@@ -23,9 +23,36 @@ build() {
     exit 2
   fi
 }
+build_race() {
+  cd "$VERIF" || exit 2
+  ( flock 9
+    CGO_ENABLED=1 $GO build -race -tags verif -o "$VERIF/.build/grulesim-race.new" ./cmd/grulesim 2>"$VERIF/.build/build-race.log" || exit 3
+    mv -f "$VERIF/.build/grulesim-race.new" "$VERIF/.build/grulesim-race"
+  ) 9>"$VERIF/.build/build.lock"
+  if [ $? -ne 0 ]; then
+    echo "check.sh: build of the -race binary failed (exit 2, not a violation):" >&2
+    cat "$VERIF/.build/build-race.log" >&2
+    exit 2
+  fi
+}
 case "${1:-}" in
   build) build; exit 0 ;;
-  replay) build; exec "$VERIF/.build/grulesim" replay "$2" ;;
+  replay)
+    build
+    if grep -q '"sim": "K-race-arm"' "$2" 2>/dev/null; then
+      build_race; exec "$VERIF/.build/grulesim-race" racearm-replay "$2"
+    fi
+    exec "$VERIF/.build/grulesim" replay "$2" ;;
+  C09)
+    build
+    "$VERIF/.build/grulesim" check C09 "${2:-quick}"; rc=$?
+    if [ "${2:-quick}" = "thorough" ] && [ $rc -ne 2 ]; then
+      # auxiliary arm, thorough tier only, clearly not simulation: real goroutines under the race detector
+      build_race
+      "$VERIF/.build/grulesim-race" racearm "${VERIF_RACE_SCENARIOS:-3000}"; rc2=$?
+      [ $rc2 -gt $rc ] && rc=$rc2
+    fi
+    exit $rc ;;
   "") echo "usage: check.sh <property> <quick|thorough> | replay <file> | build" >&2; exit 2 ;;
   *) build; exec "$VERIF/.build/grulesim" check "$1" "${2:-quick}" ;;
 esac
